@@ -345,3 +345,24 @@ def shrink_list(items, fails, max_rounds=200):
                 break
             n = min(len(items), n * 2)
     return items
+
+
+HOSTILE_ENV = {'LC_ALL': 'C', 'LANG': 'C', 'PYTHONUTF8': '0', 'PYTHONCOERCECLOCALE': '0', 'TZ': 'Pacific/Kiritimati'}
+
+
+def run_in_child(module, func, env_extra=None, cwd=None, timeout=600):
+    """runs `props.<module>.<func>()` in a fresh interpreter (optionally under another environment: locale, encoding, time zone,
+    working directory) and returns its JSON-able result; the child imports the same harness and the same $HPOTK_REPO"""
+    import subprocess
+    import sys
+    code = ('import sys, json, warnings, logging\n'
+            'warnings.simplefilter("ignore"); logging.disable(logging.CRITICAL)\n'
+            f'sys.path.insert(0, {os.path.join(REPO, "src")!r}); sys.path.insert(0, {os.path.dirname(os.path.abspath(__file__))!r})\n'
+            f'from props import {module} as m\n'
+            f'sys.stdout.write(json.dumps(m.{func}(), ensure_ascii=True))\n')
+    env = dict(os.environ)
+    env.update(env_extra or {})
+    p = subprocess.run([sys.executable, '-c', code], capture_output=True, text=True, env=env, cwd=cwd, timeout=timeout)
+    if p.returncode != 0:
+        return {'child_failed': p.stderr[-1500:]}
+    return json.loads(p.stdout)
